@@ -720,6 +720,11 @@ impl Property for C13 {
                                                         st.insert(*b, qi(((bits >> k) & 1) as i64));
                                                     }
                                                     let Some(v0) = f_h.eval(&st) else { continue };
+                                                    // a value within rounding distance of zero (but not zero) is decided by the
+                                                    // tolerance, not by the problem: borderline, not compared
+                                                    if !num::Zero::is_zero(&v0) && num::Signed::abs(&v0) < q(1e-9) {
+                                                        continue;
+                                                    }
                                                     let feas0 = v0 <= tol;
                                                     let mut exists = false;
                                                     for sv in (l2.ceil() as i64)..=(u2.floor() as i64) {
